@@ -123,6 +123,10 @@ def apply_step(w, e):
             return None
         n = w.list_(e['p'])
         return {'a': 'List', 'p': e['p'], 'n': n}
+    if a == 'Interfere':
+        # arm: the next advance of processor p is interfered with (see cronworld)
+        w.armed.add(e['p'])
+        return None
     if a in ('Advance', 'Start'):
         p = e['p']
         at = w.at(p)
@@ -159,6 +163,19 @@ def run_schedule(args):
                     skipped += 1
                     continue
                 steps.append(dict(ev=le, obs=w.observe()))
+        elif mode == 'interfere':
+            # one processor works through its passes; every now and then another processor's committed advance lands inside
+            # its advance_cron_trigger, between the SELECT and the conditional write
+            for _ in range(evs):
+                en = [e for e in enabled_steps(w, c) if e.get('p', 1) == 1 and e['a'] != 'Crash']
+                if not en:
+                    break
+                e = rnd.choices(en, [3.0 if x['a'] == 'Create' else 0.6 if x['a'] == 'Tick' else 1.0 for x in en])[0]
+                if e['a'] == 'Advance' and rnd.random() < 0.6:
+                    w.armed.add(1)
+                le = apply_step(w, e)
+                if le is not None:
+                    steps.append(dict(ev=le, obs=w.observe()))
         else:
             for _ in range(evs):
                 en = enabled_steps(w, c)
@@ -218,6 +235,8 @@ def run(tier):
             jobs_.append((nm, c, b, 'replay', 0))
         for k in range(nrand):
             jobs_.append((nm, c, 40, 'random', common.seed() * 7919 + k))
+        for k in range(nrand // 2):
+            jobs_.append((nm, c, 40, 'interfere', common.seed() * 104729 + k))
     with mp.get_context('spawn').Pool(max(2, common.NCPU - 2), initializer=_winit, initargs=(common.REPO,)) as pool:
         traces = pool.map(run_schedule, jobs_, chunksize=4)
     by_cfg = {}
@@ -240,7 +259,9 @@ def run(tier):
         viols = {}
         for m in re.finditer(r'<<"viol", (\d+), (\d+), "(\w+)">>', ro.out):
             viols.setdefault(int(m.group(1)), []).append((int(m.group(2)), m.group(3)))
-        rs = validate(d, cname, c, ts, strict=True)
+        # (executions with statement-level interference are judged by the property formulas only: the other processor's
+        #  steps happen inside a step of the observed one)
+        rs = validate(d, cname, c, [t_ if t_['mode'] != 'interfere' else dict(t_, steps=t_['steps'][:1]) for t_ in ts], strict=True)
         states += rs.distinct
         trans += rs.generated
         acc = set(int(m.group(1)) for m in re.finditer(r'<<"accepted", (\d+)>>', rs.out))
